@@ -241,6 +241,64 @@ func registerIntrinsics(m *Machine) {
 	I["sort.Slice"] = sortSlice
 	I["sort.SliceStable"] = sortSlice
 
+	// ----- errors.As / errors.Is (reflection-based in the library) -----
+	unwrap := func(m *Machine, fr *frame, e Iface) (Iface, bool) {
+		if e.T == nil {
+			return Iface{}, false
+		}
+		f := m.Prog.LookupMethod(e.T, nil, "Unwrap")
+		if f == nil || f.Signature.Results().Len() != 1 {
+			return Iface{}, false
+		}
+		r, ok := m.call(fr, f, []Value{e.V}, 0).(Iface)
+		return r, ok && r.T != nil
+	}
+	I["errors.As"] = func(m *Machine, fr *frame, a []Value) Value {
+		m.stub("errors.As")
+		err, _ := a[0].(Iface)
+		tgt, _ := a[1].(Iface)
+		pt, isPtr := tgt.T.(*types.Pointer)
+		cell, _ := tgt.V.(*Value)
+		if !isPtr || cell == nil {
+			m.panicRT("errors: target must be a non-nil pointer")
+		}
+		want := pt.Elem()
+		for n := 0; err.T != nil && n < 20; n++ {
+			if it, isI := want.Underlying().(*types.Interface); isI {
+				if types.Implements(err.T, it) {
+					m.store(cell, err)
+					return c.True
+				}
+			} else if types.Identical(err.T, want) {
+				m.store(cell, copyVal(err.V))
+				return c.True
+			}
+			next, ok := unwrap(m, fr, err)
+			if !ok {
+				break
+			}
+			err = next
+		}
+		return c.False
+	}
+	I["errors.Is"] = func(m *Machine, fr *frame, a []Value) Value {
+		m.stub("errors.Is")
+		err, _ := a[0].(Iface)
+		tgt, _ := a[1].(Iface)
+		for n := 0; n < 20; n++ {
+			eq := m.equals(types.Universe.Lookup("error").Type(), err, tgt)
+			if m.path.Branch(eq) {
+				return c.True
+			}
+			next, ok := unwrap(m, fr, err)
+			if !ok {
+				break
+			}
+			err = next
+		}
+		return c.False
+	}
+
 	// ----- strconv (concrete arguments only) -----
 	I["strconv.Itoa"] = func(m *Machine, fr *frame, a []Value) Value {
 		t := m.term(a[0])
